@@ -1,0 +1,44 @@
+
+/*==
+**
+**    ####   ######  #       #    #   ####
+**   #    #  #       #       ##  ##  #    #
+**   #       ###     #       # ## #  ######    (C) 2016-2020 Rene Eng
+**   #    #  #       #       #    #  #    #        LGPL
+**    ####   ######  ######  #    #  #    #
+**
+**
+--*/
+
+
+/// @file
+/// Observation points for runtime-verification harnesses.<br>
+/// Without the macro \c CELMA_VERIF (the default) CELMA_VERIF_POINT() expands
+/// to nothing. With it, each point calls the function
+/// <tt>extern "C" void celma_verif_point( const char* name)</tt> if - and only
+/// if - the program that is linked defines it (weak reference).
+
+
+#ifndef CELMA_COMMON_DETAIL_VERIF_HOOK_HPP
+#define CELMA_COMMON_DETAIL_VERIF_HOOK_HPP
+
+
+#ifdef CELMA_VERIF
+
+extern "C" void celma_verif_point( const char* name) __attribute__(( weak));
+
+#define CELMA_VERIF_POINT( name) \
+   do { if (celma_verif_point != nullptr) celma_verif_point( name); } while (false)
+
+#else
+
+#define CELMA_VERIF_POINT( name)
+
+#endif   // CELMA_VERIF
+
+
+#endif   // CELMA_COMMON_DETAIL_VERIF_HOOK_HPP
+
+
+// =====  END OF verif_hook.hpp  =====
+
